@@ -322,11 +322,41 @@ class ModuleNormalizer(object):
             changed = self._inline_pass(cls, fn, qual)
             if not changed:
                 break
+        self._copy_pass(fn)
         self._const_pass(cls, fn)
         self._alias_pass(fn)
         self._unroll_pass(fn)
         self._attrcall_pass(fn)
         self._ifexp_pass(fn)
+
+    # ------------------------------------------------------------------ copies left behind by inlining
+    def _copy_pass(self, fn):
+        """`A = B_7` at the top level of the function, where B_7 is a name this normaliser made up while inlining a helper (a helper local renamed because the caller
+        uses the same name), A is not mentioned anywhere before that statement and B_7 is not assigned after it: the helper's local IS the caller's variable --
+        B_7 is renamed to A in the statements before and the copy dropped (`first_step = self._init_clock()` reads as the inlined body assigning first_step)."""
+        import re as _re
+        changed = True
+        while changed:
+            changed = False
+            for k, st in enumerate(fn.body):
+                if not (isinstance(st, ast.Assign) and len(st.targets) == 1 and isinstance(st.targets[0], ast.Name) and isinstance(st.value, ast.Name)):
+                    continue
+                a, b = st.targets[0].id, st.value.id
+                if a == b or not _re.match(r"^.+_\d+$", b) or not b.startswith(a + "_"):
+                    continue
+                before, after = fn.body[:k], fn.body[k + 1:]
+                names_before = {n.id for s_ in before for n in ast.walk(s_) if isinstance(n, ast.Name)} | {x.arg for x in ast.walk(fn.args) if isinstance(x, ast.arg)}
+                if a in names_before:
+                    continue
+                if any(isinstance(n, ast.Name) and n.id == b and isinstance(n.ctx, ast.Store) for s_ in after for n in ast.walk(s_)):
+                    continue
+                sub = _Subst({}, {b: a})
+                fn.body[:k] = [sub.visit(s_) for s_ in before]
+                fn.body[k + 1:] = [sub.visit(s_) for s_ in after]
+                del fn.body[k]
+                changed = True
+                break
+        ast.fix_missing_locations(fn)
 
     # ------------------------------------------------------------------ loops over literal tables, setattr / getattr with a literal name
     MAX_UNROLL = 16
